@@ -34,7 +34,8 @@ RULE = (
     "(reset/eof/half-close at byte k or before loop step k); 12 %: one handler fails after it started a streamed response "
     "(stage prepare/write/short Content-Length body/suspended/completed x end exception/timeout/cancel/HTTPException/"
     "non-response); 7 %: a client keeps one handler busy and sends 12-100 separate writes of unparsable input (some mixed "
-    "with well-formed requests). Non-trivial: >=2 requests reached a handler and at least "
+    "with well-formed requests); 10 %: handlers answer with web.Response(body=<BytesIO / StringIO / buffered reader / Payload "
+    "instance / async generator>) with status 200/204/304, half of them on a short pipeline rich in HEAD. Non-trivial: >=2 requests reached a handler and at least "
     "one of {error response, transport pause, kill fired, client read pause}. Distinct = interleaving signature."
 )
 COMPONENTS = {
@@ -145,6 +146,11 @@ def gen(rng, tier, index):
         scn["behaviours"][rng.randrange(len(scn["behaviours"]))] = beh
     elif extra < 0.19:
         _flood(rng, scn)
+    elif extra < 0.29:
+        # --- added after the fifth round: plain web.Response objects whose body is a Payload (file-like object,
+        # text stream, async generator, Payload instance) instead of bytes, including where the response must
+        # not have a body at all (status 204 / 304, answer to HEAD)
+        _payload_bodies(rng, scn)
     return scn
 
 
@@ -153,6 +159,42 @@ FAIL_HOWS = ["none", "exc", "timeout", "timeout", "realtimeout", "cancelled", "h
 JUNK = ["this is not http %d\r\n\r\n", "GET /j%d HTTP/9.9\r\nHost: h.test\r\n\r\n",
         "GET /j%d HTTP/1.1\r\nHost: h.test\r\nBad Header\r\n\r\n", "G\x00T /%d HTTP/1.1\r\n\r\n",
         "POST /j%d HTTP/1.1\r\nHost: h.test\r\nContent-Length: x\r\n\r\n", "%d\r\n\r\n"]
+
+
+PAYLOAD_FORMS = ["bytesio", "bytesio", "strio", "bufrd", "bytespl", "agen", "agen"]
+
+
+def _payload_beh(rng):
+    return "payload:%s-%d-%d" % (rng.choice(PAYLOAD_FORMS), rng.choice([200, 200, 204, 304]), rng.choice([0, 0, 40, 3000]))
+
+
+def _payload_bodies(rng, scn):
+    """Handlers answer with web.Response(body=<object converted to a Payload>).  Half of the time the stream is
+    what it was (any method; 204 / 304 statuses make body-less responses), otherwise a short valid keep-alive
+    pipeline in which HEAD is frequent, so that a HEAD request meets such a handler and is followed by more."""
+    nb = rng.randint(1, 3)
+    behs = [_payload_beh(rng) if rng.random() < 0.7 else rng.choice(["read", "ignore", "stream", "http204"]) for _ in range(nb)]
+    behs[rng.randrange(nb)] = _payload_beh(rng)
+    if rng.random() < 0.5:
+        n = rng.randint(1, 5)
+        reqs = []
+        for i in range(n):
+            r = G.gen_request(rng, i, body_max=40)
+            if rng.random() < 0.6:
+                r["method"] = "HEAD"
+            reqs.append(r)
+        stream = "".join(G.serialize(r) for r in reqs)
+        scn["stream"] = stream
+        scn["writes"] = [[0, len(stream)]] if rng.random() < 0.6 else \
+            [[rng.choice([0, 3, 10]), m["end"] - m["start"]] for m in http1.parse_requests(G.enc(stream))[0]]
+        if sum(w_[1] for w_ in scn["writes"]) != len(stream):
+            scn["writes"] = [[0, len(stream)]]
+        scn["meta"] = {"mutation": "payload_head", "nreq": n}
+    else:
+        scn["meta"] = dict(scn["meta"], mutation="payload_" + str(scn["meta"]["mutation"]))
+    scn["behaviours"] = behs
+    if rng.random() < 0.6:
+        scn["kill"] = None
 
 
 def _flood(rng, scn):
@@ -213,6 +255,12 @@ def shrink(scn):
             yield dict(scn, behaviours=scn["behaviours"][:i] + ["fail_after:write-" + b.partition("-")[2]] + scn["behaviours"][i + 1:])
         if b == "sleep:3000":
             yield dict(scn, behaviours=scn["behaviours"][:i] + ["sleep:400"] + scn["behaviours"][i + 1:])
+        # a Payload body: the plainest form (an in-memory binary file), the shortest text
+        if b.startswith("payload:"):
+            form, st_, size = (b[len("payload:"):].split("-") + ["200", "0"])[:3]
+            for cand in ("payload:bytesio-%s-%s" % (st_, size), "payload:%s-%s-0" % (form, st_)):
+                if cand != b:
+                    yield dict(scn, behaviours=scn["behaviours"][:i] + [cand] + scn["behaviours"][i + 1:])
     # drop one request (cut at reference message boundaries)
     data = G.enc(scn["stream"])
     msgs, verdict = http1.parse_requests(data, _limits(scn))
@@ -527,6 +575,11 @@ def run(scn, ch, log=False):
             "err_entries_queued_ge8": int(state["maxerr"] >= 8),
         }
         probes.pop("started_then_", None)
+        _b = scn["behaviours"]
+        _pl = [(rec, _b[rec["n"] % len(_b)]) for rec in obs.seen if _b and not rec["pre_error"] and _b[rec["n"] % len(_b)].startswith("payload:")]
+        probes["payload_body_response"] = int(bool(_pl))
+        probes["payload_body_on_bodyless_response"] = int(any(
+            rec["method"].upper() == "HEAD" or b_.split("-")[1] in ("204", "304") for rec, b_ in _pl))
         res = {
             "violations": viols, "nontrivial": bool(nontrivial), "sig": st["sig"], "digest": st["digest"],
             "steps": st["steps"], "vtime": st["vtime"], "faults": st["faults"],
